@@ -1,14 +1,16 @@
 #!/usr/bin/env python3
 """Generated per-property summary for DESIGN.md §0 (between ASBUILT markers): theorems, correspondence runs, extras."""
+import os as _os
+ROOT = _os.path.dirname(_os.path.dirname(_os.path.abspath(__file__)))
 import re, sys, os
-sys.path.insert(0, "/verif/lib")
+sys.path.insert(0, ROOT + "/lib")
 import props
 rows = []
 for pid in sorted(props.PROPS):
     sp = props.PROPS[pid]
     thms = []
     for f in sp.get("coq_props", [pid]):
-        src = open("/verif/coq/theories/Props/%s.v" % f).read()
+        src = open(ROOT + "/coq/theories/Props/%s.v" % f).read()
         thms += re.findall(r"^\s*(?:Theorem|Corollary)\s+([A-Za-z0-9_']+)", src, re.M)
     runs = []
     for r in sp.get("runs", []):
@@ -22,10 +24,10 @@ for pid in sorted(props.PROPS):
     rows.append("| %s | %d: %s | %s | %s |" % (pid, len(thms), ", ".join("`%s`" % t for t in thms), "; ".join(runs) or "—", ", ".join(extras) or "—"))
 text = "\n".join(["| property | theorems (Props/*.v) | correspondence runs (component: compared observables) | extras |", "|---|---|---|---|"] + rows)
 B, E = "<!-- ASBUILT_BEGIN -->", "<!-- ASBUILT_END -->"
-d = open("/verif/DESIGN.md").read()
+d = open(ROOT + "/DESIGN.md").read()
 if B in d:
     a, b = d.index(B), d.index(E)
     d = d[:a] + B + "\n" + text + "\n" + d[b:]
-    open("/verif/DESIGN.md", "w").write(d)
+    open(ROOT + "/DESIGN.md", "w").write(d)
 else:
     print(text)
